@@ -1,9 +1,9 @@
 #!/bin/sh
 # setup_cmd: build the overlay venv (offline) used by every check.
-# /verif/.venv = venv of /venv/bin/python + .pth pointing at /venv's site-packages; z3-solver, crosshair-tool, jsonschema from the wheelhouse.
+# <this dir>/.venv = venv of /venv/bin/python + .pth pointing at /venv's site-packages; z3-solver, crosshair-tool, jsonschema from the wheelhouse.
 set -e
 cd "$(dirname "$0")"
-V=/verif/.venv
+V="$(pwd)/.venv"
 if [ ! -x "$V/bin/python" ] || ! "$V/bin/python" -c "import z3, crosshair, jsonschema" 2>/dev/null; then
   rm -rf "$V"
   /venv/bin/python -m venv "$V"
